@@ -15,6 +15,8 @@ MCReps == 1..NReps
 MCActors == 1..NReps
 MCMembers == 1..NMembers
 MCActorOf == [r \in MCReps |-> r]
+\* misuse: replicas 1 and 2 both edit through actor 1
+MCActorOfShared == [r \in MCReps |-> IF r <= 2 THEN 1 ELSE r]
 
 View == coreView
 
@@ -62,6 +64,7 @@ Line ==
    op  |-> IF Last(hist')[1] = "gen" THEN <<ops'[Len(ops')].op>> ELSE <<>>,
    vop |-> [q \in Reps |-> [i \in 1..Len(ops') |-> ExpValidate(ops', know'[q], i)]],
    vm  |-> [q \in Reps |-> OrValidateMerge(st'[r], st'[q])],
+   vmA |-> [q \in Reps |-> IF ActorOf = MCActorOf THEN "Ok" ELSE ExpVM(st'[r], st'[q])],
    rs  |-> IF DumpReset
            THEN [i \in 1..Len(CUSeq) |-> <<CUSeq[i], ProjB(OrReset(st'[r], CUSeq[i]))>>]
            ELSE <<>>]
